@@ -10,7 +10,7 @@ Import ListNotations.
 From Verif Require Import Common.Base Model.SampleBuilder Model.SampleBuilderSpec
   Proofs.SampleBuilderArith Proofs.SampleBuilderIter Proofs.SampleBuilder
   Proofs.SampleBuilderScan Proofs.SampleBuilderBuild Proofs.SampleBuilderFuel Proofs.SampleBuilderFifo
-  Proofs.SampleBuilderTop.
+  Proofs.SampleBuilderNoPanic Proofs.SampleBuilderTop.
 Open Scope N_scope.
 
 (* ---------- uint16 / uint32 arithmetic, all values ---------- *)
@@ -91,6 +91,14 @@ Proof.
   apply (r_ok _ _ _ _ _ (rel_purgeConsumedBuffers is_head is_tail unmarshal s)). exact Hok.
 Qed.
 Print Assumptions c31_purge_fuel_suffices.
+
+(* over every history the model never raises fault 2: buildSample never reads
+   s.buffer[i].Payload / .Timestamp / .Header of an empty slot, i.e. the Go code
+   has no nil dereference there (the depacketizer and the handlers aside) *)
+Theorem c31_no_nil_dereference : forall is_head is_tail unmarshal c ops,
+  history_ok ops -> fault (fst (run is_head is_tail unmarshal c ops)) <> 2.
+Proof. exact no_nil_dereference. Qed.
+Print Assumptions c31_no_nil_dereference.
 
 (* ---------- clause 1: every emitted sample ---------- *)
 
